@@ -125,6 +125,11 @@ func (c *Collection) StartDCPFeed(
 		// Register the feed with the collection for future notifications:
 		verifPoint("feed.preregister", c.bucket.name, args.ID)
 		c.bucket.mutex.Lock()
+		if c.bucket.closed {
+			// A feed without backfill never touches the database, so nothing has noticed yet that this handle is closed.
+			c.bucket.mutex.Unlock()
+			return ErrBucketClosed
+		}
 		c.bucket.collectionFeeds[c.DataStoreNameImpl] = append(c.bucket.collectionFeeds[c.DataStoreNameImpl], feed)
 		c.bucket.mutex.Unlock()
 	}
